@@ -137,6 +137,7 @@ type harness struct {
 	linkSets  map[string][]*g10sol.FakeMountedLink // per uuid layout
 	layout    string                               // layout of the case being run
 	src, dst  *keys.Identity
+	peers     []*keys.Identity // target peers of the multi-request cases
 	stackSnap atomic.Int64
 }
 
@@ -147,6 +148,9 @@ func newHarness(r *vf.Run) *harness {
 	h := &harness{r: r, le: logrus.NewEntry(l), work: make(chan func())}
 	rng := r.Rand("c33-keys")
 	h.src, h.dst = keys.New(rng), keys.New(rng)
+	for i := 0; i < 4; i++ {
+		h.peers = append(h.peers, keys.New(rng))
+	}
 	// link VALUES are distinct objects in every layout; what differs is which of
 	// them report the same link uuid (two transports of one type produce equal
 	// webrtc link uuids; a re-built link is reported before the old value is
@@ -250,12 +254,27 @@ type caseResult struct {
 	log          []string
 }
 
-func (h *harness) newCase() (*link_holdopen_controller.Controller, *g10sol.FakeDI, directive.ReferenceHandler, string) {
+// newCase builds a controller and a directive instance and lets the controller
+// handle it. preload > 0: the instance ALREADY carries link values 1..preload
+// when the controller's handler attaches (the hold-open controller was loaded
+// after the links were established); the fake replays them inside AddReference
+// like controllerbus does. gate: strong acquisitions are parked from the start.
+func (h *harness) newCase(preload int, gate bool) (*link_holdopen_controller.Controller, *g10sol.FakeDI, directive.ReferenceHandler, string) {
 	ctrl, err := link_holdopen_controller.NewController(nil, h.le)
 	if err != nil {
 		return nil, nil, nil, "NewController: " + err.Error()
 	}
 	di := g10sol.NewFakeDI(link.NewEstablishLinkWithPeer(h.src.ID, h.dst.ID))
+	di.SetGate(gate)
+	if preload > 0 {
+		var vals []directive.AttachedValue
+		for l := 1; l <= preload; l++ {
+			vals = append(vals, h.av(l))
+		}
+		di.SetPreload(vals...)
+		di.Note(fmt.Sprintf("instance-carries-%d-links", preload))
+		h.r.Count("links_replayed_at_attach", preload)
+	}
 	if _, err := ctrl.HandleDirective(context.Background(), di); err != nil {
 		return nil, nil, nil, "HandleDirective: " + err.Error()
 	}
@@ -340,14 +359,25 @@ func gluedString(seq []ev, g glue) string {
 
 // runScripted runs one gate-controlled case. Events outside the glue group are
 // each followed by settling; the events of the group are delivered as one unit.
-func (h *harness) runScripted(seq []ev, g glue) caseResult {
-	_, di, hd, bad := h.newCase()
+//
+// pre > 0: the first pre events (all adds) are not delivered as callbacks: the
+// instance carries those links already when the handler attaches.
+func (h *harness) runScripted(seq []ev, g glue, pre int) caseResult {
+	_, di, hd, bad := h.newCase(pre, true)
 	if bad != "" {
 		return caseResult{inconclusive: bad}
 	}
-	di.SetGate(true)
 	desc := gluedString(seq, g)
 	live := map[int]bool{}
+	if pre > 0 {
+		desc = "attach-with{" + seqString(seq[:pre]) + "} " + seqString(seq[pre:])
+		for _, e := range seq[:pre] {
+			live[e.link] = true
+		}
+		if !h.settle(false, di) {
+			return caseResult{inconclusive: "watchdog while settling after attach " + desc, log: di.Log()}
+		}
+	}
 	disposed := false
 	forced := 0
 	// unblock makes sure the previous callback has returned before the next one
@@ -389,7 +419,7 @@ func (h *harness) runScripted(seq []ev, g glue) caseResult {
 		}
 		return "", nil
 	}
-	for i := 0; i < len(seq); i++ {
+	for i := pre; i < len(seq); i++ {
 		e := seq[i]
 		if g.has() && i == g.from {
 			// the whole group in one delivery: nothing settles inside
@@ -492,15 +522,20 @@ func (h *harness) finish(di *g10sol.FakeDI, hd directive.ReferenceHandler, live 
 // the asynchronous acquisition races the following callbacks freely. split > 0:
 // the first split callbacks are delivered back to back, then everything
 // settles (the acquisition has completed), then the rest follows back to back.
-func (h *harness) runRapid(seq []ev, split int) caseResult {
-	_, di, hd, bad := h.newCase()
+func (h *harness) runRapid(seq []ev, split int, pre int) caseResult {
+	_, di, hd, bad := h.newCase(pre, false)
 	if bad != "" {
 		return caseResult{inconclusive: bad}
 	}
 	live := map[int]bool{}
 	disposed := false
 	var calls []func()
-	for _, e := range seq {
+	for i, e := range seq {
+		if i < pre {
+			live[e.link] = true
+			calls = append(calls, func() {})
+			continue
+		}
 		switch e.k {
 		case evAdd:
 			live[e.link] = true
@@ -516,8 +551,11 @@ func (h *harness) runRapid(seq []ev, split int) caseResult {
 		}
 	}
 	desc := seqString(seq)
+	if pre > 0 {
+		desc = "attach-with{" + seqString(seq[:pre]) + "} " + seqString(seq[pre:])
+	}
 	if split > 0 && split < len(calls) {
-		desc = seqString(seq[:split]) + " | " + seqString(seq[split:])
+		desc += fmt.Sprintf(" (settled after %d)", split)
 		head := calls[:split]
 		calls = calls[split:]
 		h.deliver(func() {
@@ -541,7 +579,7 @@ func (h *harness) runRapid(seq []ev, split int) caseResult {
 // runBurst delivers adds (and removes) of several links from concurrent
 // goroutines; per link the order add -> remove is kept.
 func (h *harness) runBurst(rng *rand.Rand) (caseResult, string) {
-	_, di, hd, bad := h.newCase()
+	_, di, hd, bad := h.newCase(0, false)
 	if bad != "" {
 		return caseResult{inconclusive: bad}, ""
 	}
@@ -581,7 +619,7 @@ func (h *harness) runBurst(rng *rand.Rand) (caseResult, string) {
 func TestCheck(t *testing.T) {
 	r := vf.Start(t, "C33", vf.FaultEnumeration)
 	defer r.Finish()
-	r.SetRule("Real hold-open Controller.HandleDirective on a harness directive instance carrying EstablishLinkWithPeer. (1) scripted: ALL sequences of length <= 6 (thorough: <= 10 = every sequence possible with 3 links) over {add link i (i <= 3, fresh values), remove live link i, complete the parked strong acquisition, dispose (ends the callbacks)}; callbacks are delivered serially like the real instance does; the fake parks every AddReference(strong) until the script completes it, so the asynchronous acquisition is held across removals / disposal deterministically; after every event the harness waits until every new goroutine is parked in the gate or on a mutex (goroutine dump). Each sequence is also run with a GLUED group: every contiguous pair / triple of events containing a callback (and the whole sequence) is delivered back to back from the delivery goroutine with no settling inside the group, so goroutines spawned by one callback have not been given a quiescence point before the next callback arrives (link flap: last link withdrawn and a replacement reported at once, for every position). Link uuid layouts: the link VALUES are always distinct objects, but they report distinct uuids | all the same uuid | pairwise equal uuids | values 1 and 3 equal (two transports of one type, a re-built link reported before the old value is withdrawn); every sequence with >= 2 adds is run in each layout that differs for it. (2) rapid: the same callback sequences delivered back to back with the gate open (acquisition races the callbacks freely), also with one settle point after a prefix and with PRNG uuid layouts. (3) burst: 2-4 goroutines deliver add (and remove) of their own link concurrently, PRNG uuid layout. Links are counted as attached VALUES (by identity), as the property says 'while at least one link to that peer exists'. Oracle only at quiescence (gates open, no goroutine of the controller / fake left, delivery idle): strong references outstanding on the fake >= 1 if live links > 0, = 0 if none, = 0 after dispose; then the remaining links are removed (= 0) and the instance disposed (= 0). Non-trivial = a case with at least one add and one remove or dispose; distinct = distinct (mode, sequence)")
+	r.SetRule("Real hold-open Controller.HandleDirective on a harness directive instance carrying EstablishLinkWithPeer. (1) scripted: ALL sequences of length <= 6 (thorough: <= 10 = every sequence possible with 3 links) over {add link i (i <= 3, fresh values), remove live link i, complete the parked strong acquisition, dispose (ends the callbacks)}; callbacks are delivered serially like the real instance does; the fake parks every AddReference(strong) until the script completes it, so the asynchronous acquisition is held across removals / disposal deterministically; after every event the harness waits until every new goroutine is parked in the gate or on a mutex (goroutine dump). Each sequence is also run with a GLUED group: every contiguous pair / triple of events containing a callback (and the whole sequence) is delivered back to back from the delivery goroutine with no settling inside the group, so goroutines spawned by one callback have not been given a quiescence point before the next callback arrives (link flap: last link withdrawn and a replacement reported at once, for every position). Link uuid layouts: the link VALUES are always distinct objects, but they report distinct uuids | all the same uuid | pairwise equal uuids | values 1 and 3 equal (two transports of one type, a re-built link reported before the old value is withdrawn); every sequence with >= 2 adds is run in each layout that differs for it. (2) rapid: the same callback sequences delivered back to back with the gate open (acquisition races the callbacks freely), also with one settle point after a prefix and with PRNG uuid layouts. (3) burst: 2-4 goroutines deliver add (and remove) of their own link concurrently, PRNG uuid layout. (4) links present at attach time: every scripted sequence is run again with its first 1..n adds (n <= 3) NOT delivered as callbacks: the directive instance already carries those link values when the controller's HandleDirective attaches its handler, and the fake replays them synchronously inside AddReference(handler) exactly like controllerbus' addReferenceLocked does (hold-open controller loaded after the link was established; includes the sequences where no further link is ever added); a third of the PRNG rapid cases do the same. (5) multi: 2-4 requests for different peers handled by ONE controller instance, disposed in EVERY order (all permutations), some requests only handled after the first disposal, PRNG link adds / removes on every live request before and after each disposal; a handler whose attaching (weak) reference was released receives no further callbacks, like on the real bus; the oracle is evaluated for every request at every quiescent point. Links are counted as attached VALUES (by identity), as the property says 'while at least one link to that peer exists'. Oracle only at quiescence (gates open, no goroutine of the controller / fake left, delivery idle): strong references outstanding on the fake >= 1 if live links > 0, = 0 if none, = 0 after dispose; then the remaining links are removed (= 0) and the instance disposed (= 0). Non-trivial = a case with at least one add and one remove or dispose; distinct = distinct (mode, sequence)")
 	r.Assume("callbacks of one directive instance are delivered serially (controllerbus callCallbacksLocked queues them); the burst mode additionally delivers from several goroutines because the property names concurrent additions")
 	h := newHarness(r)
 	rng := r.Rand("c33")
@@ -630,6 +668,16 @@ func TestCheck(t *testing.T) {
 		seq    []ev
 		g      glue
 		layout string
+		pre    int // the first pre adds are carried by the instance at attach time
+	}
+	leadingAdds := func(s []ev) (n int) {
+		for _, e := range s {
+			if e.k != evAdd {
+				break
+			}
+			n++
+		}
+		return
 	}
 	var scripted []scase
 	glueMaxLen := r.N(6, 7)
@@ -642,7 +690,15 @@ func TestCheck(t *testing.T) {
 			lays = append(lays, "first2")
 		}
 		for _, lay := range lays {
-			scripted = append(scripted, scase{s, glue{}, lay})
+			scripted = append(scripted, scase{s, glue{}, lay, 0})
+		}
+		// attach-time links: every sequence again with its first 1..n adds turned
+		// into values the instance carries when the handler attaches
+		for pre := 1; pre <= leadingAdds(s); pre++ {
+			scripted = append(scripted, scase{s, glue{}, "distinct", pre})
+			if pre >= 2 {
+				scripted = append(scripted, scase{s, glue{}, "same", pre})
+			}
 		}
 		if len(s) > glueMaxLen {
 			continue
@@ -654,7 +710,7 @@ func TestCheck(t *testing.T) {
 					return
 				}
 				seenG[g] = true
-				scripted = append(scripted, scase{s, g, lay})
+				scripted = append(scripted, scase{s, g, lay, 0})
 			}
 			for from := 0; from+2 <= len(s); from++ {
 				addG(glue{from, from + 2})
@@ -671,11 +727,14 @@ func TestCheck(t *testing.T) {
 	r.Extra("scripted_cases_total", len(scripted))
 	for i, sc := range scripted {
 		name := "scripted|uuids=" + sc.layout + "|" + gluedString(sc.seq, sc.g)
+		if sc.pre > 0 {
+			name += fmt.Sprintf("|attached-with-%d", sc.pre)
+		}
 		if i%16 == 0 {
 			r.Begin(name)
 		}
 		h.layout = sc.layout
-		res := h.runScripted(sc.seq, sc.g)
+		res := h.runScripted(sc.seq, sc.g, sc.pre)
 		if res.inconclusive != "" {
 			r.Inconclusive(res.inconclusive + " :: " + name)
 			r.Case(name, false)
@@ -685,6 +744,12 @@ func TestCheck(t *testing.T) {
 		}
 		r.Case(name, nontrivial(sc.seq))
 		r.Count("cases_scripted", 1)
+		if sc.pre > 0 {
+			r.Count("cases_scripted_links_present_at_attach", 1)
+			if leadingAdds(sc.seq) == sc.pre && adds(sc.seq) == sc.pre {
+				r.Count("cases_scripted_links_present_at_attach_none_added_later", 1)
+			}
+		}
 		if sc.g.has() {
 			r.Count("cases_scripted_with_glued_group", 1)
 		}
@@ -722,7 +787,11 @@ func TestCheck(t *testing.T) {
 		// plain one; afterwards both are drawn
 		h.layout = "distinct"
 		split := 0
+		pre := 0
 		if i >= len(cbSeqs) {
+			if la := leadingAdds(s); la > 0 && rng.IntN(3) == 0 {
+				pre = 1 + rng.IntN(la)
+			}
 			if adds(s) >= 2 {
 				h.layout = uuidLayouts[rng.IntN(len(uuidLayouts))]
 			}
@@ -730,11 +799,11 @@ func TestCheck(t *testing.T) {
 				split = rng.IntN(len(s))
 			}
 		}
-		name := fmt.Sprintf("rapid|uuids=%s|split%d|%s", h.layout, split, seqString(s))
+		name := fmt.Sprintf("rapid|uuids=%s|split%d|pre%d|%s", h.layout, split, pre, seqString(s))
 		if i%32 == 0 {
 			r.Begin(name)
 		}
-		res := h.runRapid(s, split)
+		res := h.runRapid(s, split, pre)
 		if res.inconclusive != "" {
 			r.Inconclusive(res.inconclusive + " :: " + name)
 			r.Case(name, false)
@@ -743,6 +812,9 @@ func TestCheck(t *testing.T) {
 		}
 		r.Case(name, nontrivial(s))
 		r.Count("cases_rapid", 1)
+		if pre > 0 {
+			r.Count("cases_rapid_links_present_at_attach", 1)
+		}
 		r.Count("cases_rapid_uuids_"+h.layout, 1)
 		if split > 0 {
 			r.Count("cases_rapid_with_settle_point", 1)
@@ -775,5 +847,41 @@ func TestCheck(t *testing.T) {
 			r.Sample(map[string]any{"mode": "burst", "events": desc, "reference_log": res.log})
 		}
 	}
+	r.Extra("phase_burst_s", time.Since(t0).Seconds())
+
+	// multi: 2-4 requests (different peers) on ONE controller, disposed in every
+	// order, with link adds / removes on the others before and after each disposal
+	nVar := r.N(4, 60)
+	mrng := r.Rand("c33-multi")
+	h.layout = "distinct"
+	for k := 2; k <= 4; k++ {
+		for _, order := range permutations(k) {
+			for v := 0; v < nVar; v++ {
+				late := 0
+				if k > 2 {
+					late = v % (k - 1)
+				}
+				seq := genMulti(mrng, k, order, late)
+				name := "multi|" + mevString(seq)
+				r.Begin(name)
+				res := h.runMulti(k, seq)
+				if res.inconclusive != "" {
+					r.Inconclusive(res.inconclusive + " :: " + name)
+					r.Case(name, false)
+					h = newHarness(r)
+					continue
+				}
+				r.Case(name, true)
+				r.Count("cases_multi", 1)
+				r.Count(fmt.Sprintf("cases_multi_%d_requests", k), 1)
+				r.Distinct("multi_disposal_orders", fmt.Sprint(k, order))
+				r.Distinct("reference_logs", strings.Join(res.log, " "))
+				if k == 3 && v == 0 && order[0] == 1 && order[1] == 0 {
+					r.Sample(map[string]any{"mode": "multi", "events": mevString(seq), "reference_log": res.log})
+				}
+			}
+		}
+	}
+	r.Extra("phase_multi_s", time.Since(t0).Seconds())
 	r.Extra("goroutine_dumps_taken", h.stackSnap.Load())
 }
